@@ -1,12 +1,18 @@
 import GV.Props.C01c
+import GV.Props.C15c
 import GV.Lemmas.C15b
 import GV.Lemmas.C09c
 /-
   Definitions and helper lemmas for GV/Props/C13b.lean, C10b.lean, C11b.lean, C12b.lean: the cell-level properties
   (C10–C13) END TO END, i.e. as statements about what the HANDLER receives for one column of one row of a rows change
-  of a well-formed history — corollaries of `C01_fidelity_bytes` (what is delivered) and of the shape of
+  of a well-formed history — corollaries of the byte-level fidelity theorem (what is delivered) and of the shape of
   `seOfRows` / `GV.C09R.expectCols` (how a delivered row looks).
   The first section holds the vocabulary the property statements are made of.
+
+  The lemmas that talk about a whole history (`site_rowsOK_reuse`, `delivered_col_reuse`, `delivered_value_reuse`) are
+  proved for `GV.C15c.WFHistReuse` — histories in which a table id may be re-used for ANOTHER table — from
+  `C15_bytes_fidelity_id_reuse` (GV/Props/C15c.lean); the `WFHist` versions (`site_rowsOK`, `delivered_col`,
+  `delivered_value`: corollaries of `C01_fidelity_bytes`) are their instances through `C15_id_reuse_subsumes`.
 -/
 namespace GV
 namespace C13b
@@ -157,11 +163,16 @@ theorem colsU_get (t : W.TableDef) (hu : t.unsigned.length = t.cols.length) (j :
   have hj' : j < t.unsigned.length := by omega
   exact ⟨t.unsigned[j], List.getElem?_eq_getElem hj', by simp [colsU, List.getElem?_zip_eq_some, hj, hj']⟩
 
-theorem site_rowsOK {cfg : W.Cfg} {h : W.History} (hwf : WFHist cfg h) {i k : Nat} {c : W.RowsChange} {after : Bool}
-    {r j : Nat} (hs : Site cfg h i k c after r j) : c ∈ histRows h ∧ RowsOK cfg c := by
+/-- the rows change of a site is one of the history's and well-formed — also when table ids are re-used -/
+theorem site_rowsOK_reuse {cfg : W.Cfg} {h : W.History} (hwf : C15c.WFHistReuse cfg h) {i k : Nat} {c : W.RowsChange}
+    {after : Bool} {r j : Nat} (hs : Site cfg h i k c after r j) : c ∈ histRows h ∧ RowsOK cfg c := by
   obtain ⟨t, ht, hc⟩ := hs.tx
   have hmem := C15b.expected_rows_sub cfg h t (List.mem_of_getElem? ht) c (List.mem_of_getElem? hc)
   exact ⟨hmem, C09c.histRows_ok cfg h hwf.units c hmem⟩
+
+theorem site_rowsOK {cfg : W.Cfg} {h : W.History} (hwf : WFHist cfg h) {i k : Nat} {c : W.RowsChange} {after : Bool}
+    {r j : Nat} (hs : Site cfg h i k c after r j) : c ∈ histRows h ∧ RowsOK cfg c :=
+  site_rowsOK_reuse (Props.C15c.C15_id_reuse_subsumes cfg h hwf) hs
 
 /-- the image of row r is well-formed against the selected columns -/
 theorem site_image {cfg : W.Cfg} {c : W.RowsChange} (hrows : RowsOK cfg c) {after : Bool}
@@ -191,14 +202,23 @@ theorem seOfRows_image (E : Ext) (c : W.RowsChange) (after : Bool)
     have hk : c.kind ≠ .write := by simpa using himg
     simp [seOfRows, hk, presentOf, imageOf, List.getElem?_eq_getElem hr]
 
-/-- MAIN LEMMA: what the handler receives for one column, end to end -/
-theorem delivered_col (cfg : W.Cfg) (env : Env) (h : W.History) (hwf : WFHist cfg h) (hm : MapperAgrees env h)
+/-- the handler calls are the expected transactions — the byte-level fidelity theorem for histories in which table ids
+    may be re-used for other tables, in terms of `runCalls` -/
+theorem runCalls_reuse (cfg : W.Cfg) (env : Env) (h : W.History) (hwf : C15c.WFHistReuse cfg h)
+    (hm : MapperAgrees env h) : runCalls cfg env h = (W.expected cfg h ⟨W.firstFile, 4⟩).map (toTx env.ext) := by
+  unfold runCalls
+  rw [Props.C15c.C15_bytes_fidelity_id_reuse cfg env h hwf hm]
+
+/-- MAIN LEMMA: what the handler receives for one column, end to end — for histories in which table ids may be re-used
+    for other tables: name, type and metadata are those of `c.table`, the table announced for THIS rows change -/
+theorem delivered_col_reuse (cfg : W.Cfg) (env : Env) (h : W.History) (hwf : C15c.WFHistReuse cfg h)
+    (hm : MapperAgrees env h)
     (i k : Nat) (c : W.RowsChange) (after : Bool) (r j : Nat) (hs : Site cfg h i k c after r j) :
     ∃ n, c.table.names[j]? = some n ∧
       deliveredCol (runCalls cfg env h) i k after r j
         = some ⟨n, (c.table.cols[j]'hs.col).typ,
                 colOf env.ext (c.table.cols[j]'hs.col).md (presentOf c after) (imageOf c after r) j⟩ := by
-  obtain ⟨_, hrows⟩ := site_rowsOK hwf hs
+  obtain ⟨_, hrows⟩ := site_rowsOK_reuse hwf hs
   obtain ⟨t, ht, hc⟩ := hs.tx
   have hcu := colsU_length c.table hrows.table.unsigned
   have hio := site_image hrows hs.img hs.row
@@ -211,15 +231,22 @@ theorem delivered_col (cfg : W.Cfg) (env : Env) (h : W.History) (hwf : WFHist cf
     exact (Option.some.inj this).symm
   refine ⟨n, hn, ?_⟩
   rw [hcj] at hget
-  have hrun : runCalls cfg env h = (W.expected cfg h ⟨W.firstFile, 4⟩).map (toTx env.ext) := by
-    unfold runCalls
-    rw [Props.C01c.C01_fidelity_bytes cfg env h hwf hm]
+  have hrun := runCalls_reuse cfg env h hwf hm
   have hev : (toTx env.ext t).events[k]? = some (seOfRows env.ext c) := by
     simp [toTx, hc, seOfChange]
   unfold deliveredCol
   rw [hrun]
   simp only [List.getElem?_map, ht, Option.map_some, hev, seOfRows_image env.ext c after hs.img r hs.row]
   exact hget
+
+/-- … for histories in which a table id names one table throughout -/
+theorem delivered_col (cfg : W.Cfg) (env : Env) (h : W.History) (hwf : WFHist cfg h) (hm : MapperAgrees env h)
+    (i k : Nat) (c : W.RowsChange) (after : Bool) (r j : Nat) (hs : Site cfg h i k c after r j) :
+    ∃ n, c.table.names[j]? = some n ∧
+      deliveredCol (runCalls cfg env h) i k after r j
+        = some ⟨n, (c.table.cols[j]'hs.col).typ,
+                colOf env.ext (c.table.cols[j]'hs.col).md (presentOf c after) (imageOf c after r) j⟩ :=
+  delivered_col_reuse cfg env h (Props.C15c.C15_id_reuse_subsumes cfg h hwf) hm i k c after r j hs
 
 /-! ### the Spec side of a site: which of the three cases column j is in, and the well-formedness of a value -/
 
@@ -303,21 +330,33 @@ theorem written_value_inv {c : W.RowsChange} {after : Bool} {r j : Nat} {v : W.C
   · cases h
 
 /-- END TO END for a written value: the handler gets its canonical text, and the value is a well-formed cell for the
-    column's type / metadata / mapper signedness -/
-theorem delivered_value (cfg : W.Cfg) (env : Env) (h : W.History) (hwf : WFHist cfg h) (hm : MapperAgrees env h)
+    column's type / metadata / mapper signedness — those of `c.table`, the table announced for THIS rows change, also
+    when its id was used for another table before -/
+theorem delivered_value_reuse (cfg : W.Cfg) (env : Env) (h : W.History) (hwf : C15c.WFHistReuse cfg h)
+    (hm : MapperAgrees env h)
     (i k : Nat) (c : W.RowsChange) (after : Bool) (r j : Nat) (hs : Site cfg h i k c after r j) (v : W.CellVal)
     (hv : written c after r j = .value v) :
     ∃ n u, c.table.names[j]? = some n ∧ c.table.unsigned[j]? = some u ∧
       W.CellOK (c.table.cols[j]'hs.col).typ (c.table.cols[j]'hs.col).md u v ∧
       deliveredCol (runCalls cfg env h) i k after r j
         = some ⟨n, (c.table.cols[j]'hs.col).typ, .value (Props.C09b.textOf env.ext (c.table.cols[j]'hs.col).md v)⟩ := by
-  obtain ⟨_, hrows⟩ := site_rowsOK hwf hs
+  obtain ⟨_, hrows⟩ := site_rowsOK_reuse hwf hs
   obtain ⟨hp, hx⟩ := written_value_inv hv
-  obtain ⟨n, hn, hd⟩ := delivered_col cfg env h hwf hm i k c after r j hs
+  obtain ⟨n, hn, hd⟩ := delivered_col_reuse cfg env h hwf hm i k c after r j hs
   obtain ⟨u, hu, hok⟩ := site_cellOK hrows hs.img hs.row hs.col hp hx
   refine ⟨n, u, hn, hu, hok, ?_⟩
   rw [hd]
   simp [colOf, hp, hx, Props.C09b.textOf]
+
+/-- … for histories in which a table id names one table throughout -/
+theorem delivered_value (cfg : W.Cfg) (env : Env) (h : W.History) (hwf : WFHist cfg h) (hm : MapperAgrees env h)
+    (i k : Nat) (c : W.RowsChange) (after : Bool) (r j : Nat) (hs : Site cfg h i k c after r j) (v : W.CellVal)
+    (hv : written c after r j = .value v) :
+    ∃ n u, c.table.names[j]? = some n ∧ c.table.unsigned[j]? = some u ∧
+      W.CellOK (c.table.cols[j]'hs.col).typ (c.table.cols[j]'hs.col).md u v ∧
+      deliveredCol (runCalls cfg env h) i k after r j
+        = some ⟨n, (c.table.cols[j]'hs.col).typ, .value (Props.C09b.textOf env.ext (c.table.cols[j]'hs.col).md v)⟩ :=
+  delivered_value_reuse cfg env h (Props.C15c.C15_id_reuse_subsumes cfg h hwf) hm i k c after r j hs v hv
 
 /-! ### the three observations -/
 
